@@ -219,6 +219,20 @@ def judge_import_segment(ctx, onset_s, offset_s, onset_sample, offset_sample, la
     want = ref_label_to_tags(label, {})
     if list(ann.tags) != want:
         ctx.violate("import_segment:tags", "import_segment:tags", observed=[[t.term.label, t.value] for t in ann.tags], expected=[[t.term.label, t.value] for t in want], spec=spec)
+    if ctx.every(spec, 6):
+        # the caller owns the returned annotation: it edits tags, notes and the interval in place and imports the segment again
+        from rv.core import scribble
+
+        try:
+            acted = scribble.scribble(ann) + (scribble.scribble(g.coordinates) if g is not None else 0)
+            if acted:
+                ctx.mon("repeat_after_result_edit")
+                ann2 = S.segment_to_annotation(seg, _rec(sr, te), adjust_time_expansion=adjust)
+                g2 = ann2.sound_event.geometry
+                if g2 is None or list(g2.coordinates) != [t0, t1] or list(ann2.tags) != want or list(ann2.notes) != []:
+                    ctx.violate("import_segment:times", "import_segment:repeat_differs_after_result_edit", observed=None if g2 is None else geoms.to_spec(g2), expected=[t0, t1], spec=spec)
+        except Exception as e:
+            ctx.violate_exc("import_segment:raises", f"import_segment:raises_on_repeat:{type(e).__name__}", e, spec=spec)
 
 
 def judge_import_bbox(ctx, onset, offset, lo, hi, label, sr, te, adjust):
